@@ -65,6 +65,9 @@ def carrier_cases(rep):
                 fl.append(("mem.ext", ">V", {"mode": "ext", "val": "V"}))
             if "idx" in m:
                 fl.append(("extind", "[V]", {"mode": "idx", "kind": "extind", "addr": "V"}))
+                # a label as the constant offset of an indexed operand (the address of a table plus a pointer register)
+                fl.append(("idx.const.label-offset", "V,Y", {"mode": "idx", "kind": "off", "reg": "Y", "off": "V", "ind": False}))
+                fl.append(("idx.const.label-offset", "[V,U]", {"mode": "idx", "kind": "off", "reg": "U", "off": "V", "ind": True}))
             for form, opnd, exp in fl:
                 if order == "label-before":
                     lines = [" ORG $%X\n" % v, "V NOP\n", " %s %s\n" % (rep, opnd)] + asmjudge.TAIL
@@ -144,12 +147,12 @@ def run_sym_case(case, ctx):
     if o.outcome == "ok":
         addr = next((s["addr"] for s in o.stmts if s["label"] == "V"), None)
         exp = dict(case["expect"])
-        for k in ("val", "addr"):
+        for k in ("val", "addr", "off"):
             if exp.get(k) == "V":
                 exp[k] = addr
         c2 = dict(case, expect=exp)
     else:
-        c2 = dict(case, expect=dict(case["expect"], val=0, addr=0))
+        c2 = dict(case, expect=dict(case["expect"], val=0, addr=0, off=0))
     c2.pop("symval")
     asmjudge.judge_c01(c2, ctx)
 
